@@ -336,6 +336,12 @@ func init() {
 					return
 				}
 			}
+			// raw signatures whose first / last byte is a line end, a blank or a zero: stored byte for byte
+			for _, via := range []string{"signfn", "file"} {
+				if !yield(C10Case{Format: "apk", Method: "apk", Key: "sig-byte-classes", Payload: 1, Via: via, FailJ: -1}) {
+					return
+				}
+			}
 			// signing callbacks: succeed, and fail at call j
 			for pl := 0; pl < c10Payloads; pl++ {
 				for _, m := range []struct {
@@ -505,8 +511,124 @@ func sigIssuer(sig []byte) string {
 	return ""
 }
 
+// c10SigByteClasses: what the first / last byte of a raw RSA signature may be that a text-minded handling would eat.
+var c10SigByteClasses = []struct {
+	name string
+	hit  func(sig []byte) bool
+}{
+	{"ends-lf", func(s []byte) bool { return s[len(s)-1] == '\n' }},
+	{"ends-cr", func(s []byte) bool { return s[len(s)-1] == '\r' }},
+	{"ends-space", func(s []byte) bool { return s[len(s)-1] == ' ' }},
+	{"ends-nul", func(s []byte) bool { return s[len(s)-1] == 0 }},
+	{"starts-nul", func(s []byte) bool { return s[0] == 0 }},
+	{"starts-space", func(s []byte) bool { return s[0] == ' ' || s[0] == '\n' || s[0] == '\t' }},
+}
+
+// checkC10SigBytes: apk signatures are raw bytes. Descriptions "... #i" are enumerated in order (PKCS#1 v1.5 signing is
+// deterministic, so the signature each one must carry is known to the harness) until the expected signature has been
+// in every class of c10SigByteClasses; every package built on the way must carry exactly its expected signature.
+func checkC10SigBytes(env *engine.Env, c C10Case) engine.Outcome {
+	var out engine.Outcome
+	t := tree(env)
+	priv, err := rsaPriv(keyPath(env, "rsa_unprotected.priv"))
+	if err != nil {
+		out.HarnessError = err.Error()
+		return out
+	}
+	d := Setting{Name: "default"}.doc(c10Payload(c.Payload), t.Root)
+	d["maintainer"] = "Jane Roe <jane@example.com>"
+	sigm := map[string]any{"key_name": "origin"}
+	if c.Via == "file" {
+		sigm["key_file"] = keyPath(env, "rsa_unprotected.priv")
+	}
+	d["apk"] = map[string]any{"signature": sigm}
+	seen := map[string]bool{}
+	p, _ := nfpm.Get("apk")
+	const limit = 6000
+	for i := 0; i < limit && len(seen) < len(c10SigByteClasses); i++ {
+		d["description"] = fmt.Sprintf("signature byte classes #%d", i)
+		cfg, err := parseYAML(d.YAML(), func(string) string { return "" })
+		if err != nil {
+			out.HarnessError = "parse: " + err.Error()
+			return out
+		}
+		info, err := cfg.Get("apk")
+		if err != nil {
+			out.HarnessError = err.Error()
+			return out
+		}
+		info = nfpm.WithDefaults(info)
+		var returned []byte
+		if c.Via == "signfn" {
+			info.APK.Signature.SignFn = func(r io.Reader) ([]byte, error) {
+				b, _ := io.ReadAll(r)
+				s, e := rsa.SignPKCS1v15(rand.Reader, priv, crypto.SHA1, b)
+				returned = s
+				return s, e
+			}
+		}
+		var buf bytes.Buffer
+		if err := p.Package(info, &buf); err != nil {
+			out.Violations = append(out.Violations, engine.Violation{Sig: "sig:signing-fails:apk:byte-classes", Detail: fmt.Sprintf("via=%s description #%d: %v", c.Via, i, err)})
+			return out
+		}
+		out.Transitions++
+		pkg, err := pkgread.Decode("apk", buf.Bytes(), env.Tools)
+		if err != nil || pkg.ControlBlob == nil {
+			out.Violations = append(out.Violations, engine.Violation{Sig: "sig:undecodable:apk", Detail: fmt.Sprintf("via=%s description #%d: %v", c.Via, i, err)})
+			return out
+		}
+		dg := sha1.Sum(pkg.ControlBlob)
+		want, err := rsa.SignPKCS1v15(rand.Reader, priv, crypto.SHA1, dg[:])
+		if err != nil {
+			out.HarnessError = err.Error()
+			return out
+		}
+		var cls []string
+		for _, k := range c10SigByteClasses {
+			if k.hit(want) {
+				cls = append(cls, k.name)
+				seen[k.name] = true
+			}
+		}
+		if returned != nil && !bytes.Equal(returned, want) {
+			out.Violations = append(out.Violations, engine.Violation{Sig: "sig:callback-bytes:apk", Detail: fmt.Sprintf("via=%s description #%d: the callback did not sign the SHA-1 of the control segment as shipped", c.Via, i)})
+			return out
+		}
+		if !bytes.Equal(pkg.SigBlob, want) {
+			out.Violations = append(out.Violations, engine.Violation{Sig: "sig:bytes-altered:apk:" + strings.Join(append(cls, "any")[:1], ""),
+				Detail: fmt.Sprintf("via=%s payload=%d description %q: the signature member holds %d bytes (%x...%x), the RSA signature over the control segment as shipped is %d bytes (%x...%x) [%s]",
+					c.Via, c.Payload, d["description"], len(pkg.SigBlob), head(pkg.SigBlob, 2), tail(pkg.SigBlob, 2), len(want), want[:2], want[len(want)-2:], strings.Join(cls, ","))})
+			return out
+		}
+	}
+	out.Nontrivial = len(seen) == len(c10SigByteClasses)
+	out.Key = fmt.Sprintf("sig-bytes|%s|%d|%d", c.Via, c.Payload, len(seen))
+	if !out.Nontrivial {
+		out.HarnessError = fmt.Sprintf("signature byte classes: only %d of %d classes met within %d descriptions", len(seen), len(c10SigByteClasses), limit)
+	}
+	return out
+}
+
+func head(b []byte, n int) []byte {
+	if len(b) < n {
+		return b
+	}
+	return b[:n]
+}
+
+func tail(b []byte, n int) []byte {
+	if len(b) < n {
+		return b
+	}
+	return b[len(b)-n:]
+}
+
 func checkC10(env *engine.Env, ci any) engine.Outcome {
 	c := ci.(C10Case)
+	if c.Key == "sig-byte-classes" {
+		return checkC10SigBytes(env, c)
+	}
 	t := tree(env)
 	var out engine.Outcome
 	f := c.Format
